@@ -21,6 +21,7 @@ import (
 
 	"verifharness/hx"
 
+	"github.com/iotaledger/hive.go/ierrors"
 	"github.com/iotaledger/hive.go/kvstore"
 	"github.com/iotaledger/hive.go/kvstore/mapdb"
 )
@@ -51,6 +52,39 @@ type faultStore struct {
 	trace    *[]string
 	anyFail  *bool
 	letterOf map[string]string
+	wrap     int // error flavour of the store: 0 bare sentinels, 1 ierrors.Wrap, 2 fmt.Errorf("%w") twice
+}
+
+// we returns the error the way this store flavour reports it.  A KVStore may wrap its sentinel errors (callers are
+// expected to test with errors.Is / ierrors.Is, as the repository does everywhere); the typed views must behave the
+// same over such a store.
+func (f *faultStore) we(err error) error {
+	if err == nil {
+		return nil
+	}
+	switch f.wrap {
+	case 1:
+		return ierrors.Wrap(err, "store layer")
+	case 2:
+		return fmt.Errorf("outer layer: %w", fmt.Errorf("inner layer: %w", err))
+	}
+
+	return err
+}
+
+func (f *faultStore) setFlavour(name string) string {
+	switch name {
+	case "plain":
+		f.wrap = 0
+	case "wrapped":
+		f.wrap = 1
+	case "fmt":
+		f.wrap = 2
+	default:
+		return "bad-op"
+	}
+
+	return "ok"
 }
 
 func (f *faultStore) begin(failAt map[int]bool, kvAfter int) {
@@ -71,7 +105,7 @@ func (f *faultStore) hit(letter string) bool {
 
 func (f *faultStore) Get(k kvstore.Key) (kvstore.Value, error) {
 	if f.hit("G") {
-		return nil, errKV
+		return nil, f.we(errKV)
 	}
 	v, err := f.KVStore.Get(k)
 	if err != nil {
@@ -80,28 +114,30 @@ func (f *faultStore) Get(k kvstore.Key) (kvstore.Value, error) {
 		*f.trace = append(*f.trace, "G")
 	}
 
-	return v, err
+	return v, f.we(err)
 }
 
 func (f *faultStore) Has(k kvstore.Key) (bool, error) {
 	if f.hit("H") {
-		return false, errKV
+		return false, f.we(errKV)
 	}
 	*f.trace = append(*f.trace, "H")
 
-	return f.KVStore.Has(k)
+	h, err := f.KVStore.Has(k)
+
+	return h, f.we(err)
 }
 
 func (f *faultStore) Set(k kvstore.Key, v kvstore.Value) error {
 	if f.hit("S") {
-		return errKV
+		return f.we(errKV)
 	}
 	*f.trace = append(*f.trace, "S")
 	err := f.KVStore.Set(k, v)
 	// the buffer belongs to the caller again once Set has returned: a store must not keep it
 	scribble(v)
 
-	return err
+	return f.we(err)
 }
 
 func scribble(b []byte) {
@@ -112,7 +148,7 @@ func scribble(b []byte) {
 
 func (f *faultStore) IterateKeys(prefix kvstore.KeyPrefix, consumer kvstore.IteratorKeyConsumerFunc, dir ...kvstore.IterDirection) error {
 	if f.hit("I") {
-		return errKV
+		return f.we(errKV)
 	}
 	delivered, failed := 0, false
 	err := f.KVStore.IterateKeys(prefix, func(k kvstore.Key) bool {
@@ -129,43 +165,43 @@ func (f *faultStore) IterateKeys(prefix kvstore.KeyPrefix, consumer kvstore.Iter
 		*f.trace = append(*f.trace, "I!")
 		*f.anyFail = true
 
-		return errKV
+		return f.we(errKV)
 	}
 	*f.trace = append(*f.trace, "I")
 
-	return err
+	return f.we(err)
 }
 
 func (f *faultStore) DeletePrefix(prefix kvstore.KeyPrefix) error {
 	if f.hit("P") {
-		return errKV
+		return f.we(errKV)
 	}
 	*f.trace = append(*f.trace, "P")
 
-	return f.KVStore.DeletePrefix(prefix)
+	return f.we(f.KVStore.DeletePrefix(prefix))
 }
 
 func (f *faultStore) Clear() error {
 	if f.hit("Z") {
-		return errKV
+		return f.we(errKV)
 	}
 	*f.trace = append(*f.trace, "Z")
 
-	return f.KVStore.Clear()
+	return f.we(f.KVStore.Clear())
 }
 
 func (f *faultStore) Delete(k kvstore.Key) error {
 	if f.hit("X") {
-		return errKV
+		return f.we(errKV)
 	}
 	*f.trace = append(*f.trace, "X")
 
-	return f.KVStore.Delete(k)
+	return f.we(f.KVStore.Delete(k))
 }
 
 func (f *faultStore) Iterate(prefix kvstore.KeyPrefix, consumer kvstore.IteratorKeyValueConsumerFunc, dir ...kvstore.IterDirection) error {
 	if f.hit("I") {
-		return errKV
+		return f.we(errKV)
 	}
 	delivered, failed := 0, false
 	err := f.KVStore.Iterate(prefix, func(k kvstore.Key, v kvstore.Value) bool {
@@ -182,11 +218,11 @@ func (f *faultStore) Iterate(prefix kvstore.KeyPrefix, consumer kvstore.Iterator
 		*f.trace = append(*f.trace, "I!")
 		*f.anyFail = true
 
-		return errKV
+		return f.we(errKV)
 	}
 	*f.trace = append(*f.trace, "I")
 
-	return err
+	return f.we(err)
 }
 
 // ---------------------------------------------------------------------------------------------
@@ -547,6 +583,8 @@ func (w *tvWorld) exec(r *hx.Run, f []string) string {
 	switch f[0] {
 	case "codec":
 		return w.bufs.setFlavour(f[1])
+	case "store":
+		return w.fs.setFlavour(f[1])
 	case "init":
 		w.base.Delete(tvKey)
 		w.initHas, w.initRaw = false, nil
@@ -984,6 +1022,8 @@ func (w *tsWorld) exec(r *hx.Run, f []string) string {
 	switch f[0] {
 	case "codec":
 		return w.bufs.setFlavour(f[1])
+	case "store":
+		return w.fs.setFlavour(f[1])
 	case "rawset":
 		k, v := hx.UnHex(f[1]), hx.UnHex(f[2])
 		w.base.Set(k, v)
@@ -1224,7 +1264,7 @@ func (w *world) exec(r *hx.Run, line string) string {
 // faultTok returns the fault token of an op line with positions stripped ("dec@3+4" -> "dec@").
 func faultTok(f []string) (string, bool) {
 	switch f[1] {
-	case "init", "reopen", "rawset", "rawdel", "mut", "codec":
+	case "init", "reopen", "rawset", "rawdel", "mut", "codec", "store":
 		return "", false
 	}
 	ft := f[len(f)-1]
